@@ -53,7 +53,9 @@ AllLangs(t) == UNION {Languages(t.F, t.tags[k].tag) : k \in 1..Len(t.tags)}
 Triples(t) == {x \in (1..Len(t.tags)) \X AllLangs(t) \X Exported(t) \X Exported(t) :
                   LET k == x[1]  lang == x[2]  a == x[3]  b == x[4] IN
                   /\ lang \in Languages(t.F, t.tags[k].tag)
-                  /\ HasKern(t, t.tags[k], lang)
+                  \* every language system of a script for which kerning is registered at all (a language system that other
+                  \* generated features created but kerning skipped applies 0 to every pair)
+                  /\ \E l2 \in Languages(t.F, t.tags[k].tag) : HasKern(t, t.tags[k], l2)
                   /\ Admissible(t, t.tags[k], a) /\ Admissible(t, t.tags[k], b)}
 
 AdvBad(t)  == {x \in Triples(t) : ~Mixed(t, x[3], x[4]) /\ ~Known_C05_1(t, x[3], x[4])
